@@ -81,7 +81,7 @@ func (b *exampleBuilder) buildExampleForObjectNode(node *ischema.ObjectNode) ([]
 		buf.Write(ex)
 	}
 	buf.WriteByte('}')
-	return buf.Bytes(), nil
+	return copyBytes(buf.Bytes()), nil
 }
 
 // buildObjectKey returns the key as a JSON string literal.
@@ -129,7 +129,12 @@ func (b *exampleBuilder) buildExampleForArrayNode(node *ischema.ArrayNode) ([]by
 		buf.Write(ex)
 	}
 	buf.WriteByte(']')
-	return buf.Bytes(), nil
+	return copyBytes(buf.Bytes()), nil
+}
+
+// copyBytes returns a copy which doesn't depend on the pooled buffer.
+func copyBytes(b []byte) []byte {
+	return append(make([]byte, 0, len(b)), b...)
 }
 
 func (b *exampleBuilder) buildExampleForMixedValueNode(node *ischema.MixedValueNode) ([]byte, error) {
@@ -216,7 +221,7 @@ func buildExampleForObjectNode(
 		}
 	}
 	b.WriteByte('}')
-	return b.Bytes(), nil
+	return copyBytes(b.Bytes()), nil
 }
 
 func buildExampleForArrayNode(
@@ -244,7 +249,7 @@ func buildExampleForArrayNode(
 		}
 	}
 	b.WriteByte(']')
-	return b.Bytes(), nil
+	return copyBytes(b.Bytes()), nil
 }
 
 var exampleBufferPool = sync.NewBufferPool(512)
